@@ -84,6 +84,16 @@ std::shared_ptr<ISource> EntityWithSourcesHDF5::getSource(const size_t index) co
 }
 
 void EntityWithSourcesHDF5::sources(const std::vector<Source> &sources) {
+    // refuse the whole vector before the first source is removed
+    std::vector<std::string> ids;
+    for (const auto &src : sources) {
+        if (block()->hasEntity(src)) {
+            if (std::find(ids.begin(), ids.end(), src.id()) != ids.end())
+                throw std::runtime_error("EntityWithSourcesHDF5::sources: Source given more than once!");
+            ids.push_back(src.id());
+        }
+    }
+
     while (sourceCount() > 0) {
         removeSource(getSource(0)->id());
     }
